@@ -75,14 +75,18 @@ def prepare_crate(tag):
     return dst
 
 
-def build(crate, log_path, extra_cfg=None):
-    """Compile once (all harnesses); returns (ok, seconds)."""
+def feature_args(harnesses):
+    """cargo feature flags selecting exactly the proof modules the given harnesses live in."""
+    mods = sorted(set(h.name.split("::")[1] for h in harnesses))
+    return ["--no-default-features", "--features", ",".join(["msi_verif"] + ["p_" + m for m in mods])]
+
+
+def build(crate, log_path, harnesses):
+    """Compile once (the proof modules of `harnesses`); returns (ok, seconds)."""
     t0 = time.time()
     env = dict(BASE_ENV)
-    if extra_cfg:
-        env["RUSTFLAGS"] = " ".join("--cfg %s" % c for c in extra_cfg)
     cmd = ["cargo", "kani", "--only-codegen", "--target-dir", os.path.join(crate, "target"),
-           "-Z", "stubbing", "-Z", "unstable-options"]
+           "-Z", "stubbing", "-Z", "unstable-options"] + feature_args(harnesses)
     with open(log_path, "w") as f:
         p = subprocess.run(cmd, cwd=crate, env=env, stdout=f, stderr=subprocess.STDOUT)
     return p.returncode == 0, time.time() - t0
@@ -147,19 +151,20 @@ def parse_log(txt, res):
             others = [f for f in res.failed if "unwinding" not in f[0]]
             if not others:
                 res.status = "UNWIND"
-        if not res.failed and "Status: ERROR" in txt:
+        if not res.failed:
+            # FAILED without a failed check is never a verdict about the code
             res.status = "ERROR"
     else:
         res.status = "ERROR"
 
 
-def run_one(crate, h, out_dir, extra_args=None, timeout=None):
+def run_one(crate, h, out_dir, extra_args=None, timeout=None, feats=None):
     res = Result(h)
     short = h.name.split("::")[-1]
     os.makedirs(out_dir, exist_ok=True)
     log_path = os.path.join(out_dir, short + ".log")
     cmd = ["cargo", "kani", "--harness", h.name, "--exact", "--target-dir", os.path.join(crate, "target"),
-           "-Z", "stubbing"] + list(h.flags)
+           "-Z", "stubbing"] + list(h.flags) + list(feats or feature_args([h]))
     if h.unwindset:
         ids = find_loop_ids(crate, h.name, h.unwindset)
         if ids:
@@ -182,8 +187,8 @@ def run_one(crate, h, out_dir, extra_args=None, timeout=None):
         res.time_s = wall
         return res
     parse_log(txt, res)
-    if res.status == "ERROR" and ("std::bad_alloc" in txt or "Out of memory" in txt or "out of memory" in txt
-                                  or "memory exhausted" in txt):
+    if res.status in ("ERROR", "FAIL") and not res.failed and (
+            "std::bad_alloc" in txt or "Out of memory" in txt or "out of memory" in txt or "memory exhausted" in txt):
         res.status = "OOM"
     if res.time_s == 0.0:
         res.time_s = wall
@@ -194,6 +199,7 @@ def run_one(crate, h, out_dir, extra_args=None, timeout=None):
 def run_many(crate, harnesses, out_dir, max_par=14, mem_budget_gb=52):
     """Run harnesses in parallel, packed by declared memory class."""
     os.makedirs(out_dir, exist_ok=True)
+    feats = feature_args(harnesses)
     lock = threading.Condition()
     state = {"mem": 0, "n": 0}
     results = {}
@@ -205,7 +211,7 @@ def run_many(crate, harnesses, out_dir, max_par=14, mem_budget_gb=52):
             state["n"] += 1
             state["mem"] += h.mem_gb
         try:
-            r = run_one(crate, h, out_dir)
+            r = run_one(crate, h, out_dir, feats=feats)
         finally:
             with lock:
                 state["n"] -= 1
@@ -220,13 +226,13 @@ def run_many(crate, harnesses, out_dir, max_par=14, mem_budget_gb=52):
     return [results[h.name] for h in harnesses]
 
 
-def concrete_playback(crate, h, out_dir, timeout=None):
+def concrete_playback(crate, h, out_dir, timeout=None, feats=None):
     """Re-run a failing harness with concrete playback, inject the generated
     unit test into the scratch copy of the crate, and execute it natively.
     Returns (reproduced: bool|None, test_source: str, detail: str)."""
     short = h.name.split("::")[-1]
     r = run_one(crate, h, out_dir + "_pb", extra_args=["-Z", "concrete-playback", "--concrete-playback=inplace"],
-                timeout=timeout or h.timeout)
+                timeout=timeout or h.timeout, feats=feats)
     txt = open(r.log, errors="replace").read()
     # collect the injected tests (kani puts them next to the harness -- for
     # macro-generated harnesses that is inside the macro body, so they are
@@ -253,7 +259,7 @@ def concrete_playback(crate, h, out_dir, timeout=None):
     if not test_name:
         return None, "", "no concrete playback test was generated (see %s)" % r.log
     pb_log = os.path.join(out_dir + "_pb", short + ".playback.log")
-    cmd = "timeout 600 cargo kani playback -Z concrete-playback -- %s" % test_name
+    cmd = "timeout 600 cargo kani playback -Z concrete-playback %s -- %s" % (" ".join(feats or feature_args([h])), test_name)
     with open(pb_log, "w") as f:
         p = subprocess.run(["bash", "-c", cmd], cwd=crate, env=BASE_ENV, stdout=f, stderr=subprocess.STDOUT)
     out = open(pb_log, errors="replace").read()
@@ -263,3 +269,31 @@ def concrete_playback(crate, h, out_dir, timeout=None):
     if re.search(r"test result: ok", out):
         return False, test_src, "playback test passed natively (counterexample did not reproduce)"
     return None, test_src, "playback could not be run (see %s)" % pb_log
+
+
+def measure_premises(crate):
+    """Run the native premise probes (real Package over real cfb) and write
+    src/gen_premises.rs of the scratch crate.  Premises, never verdicts."""
+    env = dict(BASE_ENV)
+    env["CARGO_TARGET_DIR"] = os.path.join(crate, "target_native")
+    p = subprocess.run(["cargo", "test", "--offline", "--lib", "native::premises::probe_premises", "--",
+                        "--nocapture", "--test-threads=1"], cwd=crate, env=env, capture_output=True, text=True)
+    out = {}
+    for m in re.finditer(r"OUT (\w+)=(.*)$", p.stdout, re.M):
+        out[m.group(1)] = m.group(2).strip()
+    if "c06_w_acc" not in out:
+        out["_error"] = (p.stdout + p.stderr)[-1500:]
+        return out
+    w = out["c06_w_acc"]
+    if w == "unbounded":
+        val = "usize::MAX"
+    elif w == "none":
+        val = "0"
+    else:
+        val = w
+    src = ("//! generated by the driver on this run from native probes of the public API\n"
+           "pub const C06_W_ACC: usize = %s;\n" % val)
+    open(os.path.join(crate, "src", "gen_premises.rs"), "w").write(src)
+    if out.get("c06_shape_ok") == "0":
+        out["_error"] = "acceptance of string widths is not upward-closed; premise shape assumption violated"
+    return out
